@@ -880,6 +880,9 @@ class RuProxy(object):
         pass
 
     def get_hostname(self):
+        sim = K.CUR
+        if sim is not None:
+            return sim.data.get('hostname', 'localhost')
         return 'localhost'
 
     def env_eval(self, *a, **k):
